@@ -1125,7 +1125,7 @@ impl<'p> World<'p> {
             Out::Ok((redisplay, _)) => {
                 let same = *redisplay == d.text || (redisplay.matches('.').count() == 2 && d.text == format!("{redisplay}."));
                 if !same {
-                    self.violate("C09", "noncanonical-base64-accepted", bk, &format!("parse-{}", purpose.name()), &fclass, format!("parser accepted {:?} but re-serialises it as {:?}", truncate(&d.text, 100), truncate(redisplay, 100)));
+                    self.violate("C09", "token-parse-display-not-identity", bk, &format!("parse-{}", purpose.name()), &fclass, format!("parser accepted {:?} but re-serialises it as {:?}", truncate(&d.text, 100), truncate(redisplay, 100)));
                 }
             }
             Out::Panic(p) => self.violate("C04", "panic", bk, &format!("parse-token-{}", purpose.name()), &fclass, format!("token parser panicked: {p}")),
